@@ -1374,7 +1374,12 @@ pub fn unify(
                 return Ok(()); // the empty union (NEVER) is a subtype of anything
             }
 
-            let pattern_variants = pattern_variants.clone();
+            // A bare type variable among the pattern's variants unifies with anything - met a
+            // second time it widens - so it is tried last: an argument variant that one of the
+            // other variants accounts for (the `[]` of `'t | []`) must not widen it.
+            let mut pattern_variants = pattern_variants.clone();
+            pattern_variants
+                .sort_by_key(|&v| matches!(program.lookup_type(v), Some(Type::Variable(_))));
             let concrete_variants = concrete_variants.clone();
 
             for &concrete_variant in &concrete_variants {
@@ -1389,15 +1394,9 @@ pub fn unify(
                     )
                     .is_ok()
                     {
-                        // Merge the bindings
-                        for (k, v) in temp_bindings {
-                            if let Some(&existing) = bindings.get(&k)
-                                && !quiver_core::types::is_compatible(v, existing, program)
-                            {
-                                continue; // Skip incompatible binding
-                            }
-                            bindings.insert(k, v);
-                        }
+                        // Keep the bindings of the variant that matched, a widened type variable
+                        // included: the variant was accepted on the strength of that widening.
+                        *bindings = temp_bindings;
                         found_match = true;
                         break;
                     }
